@@ -40,6 +40,14 @@ CLAIMED["C20"] = dict(
            "(std::sort with rangeComp_ + removal of empties); erase loops do not skip the element that slides into an erased slot; delete/erase/clear pairing of owned pointers."),
     note=TB + "Not decided: union/total length over operation histories, correctness of addRange's merge order, rangeComp_ as a strict weak order (relies on disjointness).")
 
+CLAIMED["C03"] = dict(
+    engine="E1+E4+E5",
+    technique="static analysis: state-preserving-cycle search on the CFG with exception edges and callee effect summaries; assign-reset, fresh-object (clone -> retarget -> store) typestate, throw-after-mutation reachability, must-pass bookkeeping",
+    level=("Static rules decide: no loop of the bulk-alias routine can cycle without writing loop state (termination clause, for every map); operator= clears what it re-populates; cloned listeners are "
+           "re-targeted to the copy's own list before being registered/attached and shared pointers come from the copy itself; refusals precede every mutation in alias/unalias; the three bookkeeping "
+           "steps happen on every normal path on the right parameters; setNamespace renames listeners before the base class; the intersected constraint is installed on both parameters."),
+    note=TB + "Not decided: value equality through alias chains after arbitrary histories, cycles longer than two, listener firing order.")
+
 NOT_APPLICABLE = {
     "C06": ("every clause is a floating-point identity of the JAMA QL/QR iterations (A.V = V.D within k.eps, ordering, trace/determinant); correctness lies in rotation coefficients and "
             "deflation tests that no sound static argument in reach bounds, and no structural necessary condition separable from run-time invariants exists (DESIGN.md section 6)"),
